@@ -250,8 +250,8 @@ theorem midnight_add (d k : Int) : midnight (d + k) = midnight d + k * usDay := 
 
 /-- `once(time ± off)`: the second parse lands on the first occurrence after `now` -/
 theorem onceCand_daily (P : Params) (time : TimeSpec) (x off now st : Int) (h : Spec.fixedTod time = some x)
-    (hd : dayInRange (dayOf now)) (hst : midnight (dayOf now) + x + off ≠ st) :
-    ∃ t, onceCand P (.at .none time off) now st = some (some t) ∧ IsNext (Spec.daily (x + off)) now (some t) := by
+    (hd : dayInRange (dayOf now)) (hst : ¬ (now = midnight (dayOf now) + x + off ∧ now = st)) :
+    ∃ t, onceCand false P (.at .none time off) now st = some (some t) ∧ IsNext (Spec.daily (x + off)) now (some t) := by
   have hq := tdDays_spec (now - (midnight (dayOf now) + x + off))
   generalize hqd : tdDays (now - (midnight (dayOf now) + x + off)) = q at hq
   have p0 := parse_noDate P.base time x off 0 now st h hd
@@ -267,8 +267,14 @@ theorem onceCand_daily (P : Params) (time : TimeSpec) (x off now st : Int) (h : 
         subst this; simp only [usDay] at hq ⊢; omega
       simp [hlt]
     · have h1 : (q + 1 != 0) = true := by simp [hz]
-      have h2 : (midnight (dayOf now) + x + off != st) = true := by simp [hst]
-      simp only [h1, h2, Bool.and_self, if_true, pk, midnight_add]
+      have h2 : (!(now == midnight (dayOf now) + x + off && now == st)) = true := by
+        cases hab : (now == midnight (dayOf now) + x + off && now == st) with
+        | false => rfl
+        | true =>
+          exfalso; apply hst
+          simp only [Bool.and_eq_true, beq_iff_eq] at hab
+          exact hab
+      simp only [h1, h2, Bool.false_eq_true, if_false, Bool.and_self, if_true, pk, midnight_add]
       have hlt : now < midnight (dayOf now) + (q + 1) * usDay + x + off := by
         simp only [usDay] at hq ⊢; omega
       have e : midnight (dayOf now) + (q + 1) * usDay + x + off = midnight (dayOf now) + x + off + (q + 1) * usDay := by omega
@@ -283,13 +289,19 @@ theorem onceCand_daily (P : Params) (time : TimeSpec) (x off now st : Int) (h : 
       omega
 
 /-- when both `parse_date_time` calls give the same instant `T` (explicit date, weekday, `now`) -/
-theorem onceCand_const (P : Params) (d : DTSpec) (now st T : Int) (fx : Bool)
+theorem onceCand_const (bv : Bool) (P : Params) (d : DTSpec) (now st T : Int) (fx : Bool)
     (hp : ∀ k, parseDT P.base d k now st = some (T, fx)) :
-    onceCand P d now st = some (if now < T || (now == T && now == st) then some T else none) := by
-  simp only [onceCand, hp 0, onceSecond]
-  by_cases hc : (tdDays (now - T) + 1 != 0 && T != st) = true
-  · simp [hc, hp]
-  · simp [hc]
+    onceCand bv P d now st = some (if now < T || (now == T && now == st) then some T else none) := by
+  have h2 : onceSecond bv P d now st (T, fx) = some (T, fx) := by
+    simp only [onceSecond]
+    split
+    · split
+      · exact hp _
+      · rfl
+    · split
+      · exact hp _
+      · rfl
+  simp only [onceCand, hp 0, h2]
 
 theorem isNext_single (T now : Int) : IsNext (Spec.single T) now (if now < T then some T else none) := by
   by_cases h : now < T
@@ -576,7 +588,7 @@ theorem specStep_merge (F : TFlags) (P : Params) (now st : Int) (s : NT) (sp : T
   cases sp with
   | once d =>
     simp only [specStep]
-    cases onceCand P d now st with
+    cases onceCand F.startupByValue P d now st with
     | none =>
       cases hb : (!F.badDateRaises && (parseDT P.base d 0 now st).isNone) with
       | false => simp
@@ -593,7 +605,7 @@ theorem specStep_merge (F : TFlags) (P : Params) (now st : Int) (s : NT) (sp : T
   | period a per stop =>
     simp only [specStep, periodStep]
     cases parseDT P.base a 0 now st with
-    | none => rfl
+    | none => cases F.periodDateRaises <;> simp [merge_empty]
     | some x =>
       simp only
       by_cases hp : per ≤ 0
@@ -604,7 +616,7 @@ theorem specStep_merge (F : TFlags) (P : Params) (now st : Int) (s : NT) (sp : T
         | some b =>
           simp only
           cases parseDT P.base b 0 now st with
-          | none => rfl
+          | none => cases F.periodDateRaises <;> simp [merge_empty]
           | some y =>
             simp only [periodWithEnd]
             split
@@ -664,7 +676,7 @@ theorem specStep_future (F : TFlags) (P : Params) (hE : FloatOK F P) (hC : CronF
   cases sp with
   | once d =>
     simp only [specStep] at h
-    cases hc : onceCand P d now st with
+    cases hc : onceCand F.startupByValue P d now st with
     | none =>
       simp only [hc] at h
       split at h
@@ -683,7 +695,7 @@ theorem specStep_future (F : TFlags) (P : Params) (hE : FloatOK F P) (hC : CronF
         | none => simp [h1] at hc
         | some f =>
           simp only [h1] at hc
-          cases h2 : onceSecond P d now st f with
+          cases h2 : onceSecond F.startupByValue P d now st f with
           | none => simp [h2] at hc
           | some q =>
             simp only [h2, Option.some.injEq] at hc
@@ -712,7 +724,7 @@ theorem specStep_future (F : TFlags) (P : Params) (hE : FloatOK F P) (hC : CronF
   | period a per stop =>
     simp only [specStep, periodStep] at h
     cases h1 : parseDT P.base a 0 now st with
-    | none => simp [h1] at h
+    | none => simp [h1] at h; obtain ⟨_, rfl⟩ := h; exact hs
     | some x =>
       simp only [h1] at h
       by_cases hp : per ≤ 0
@@ -741,7 +753,7 @@ theorem specStep_future (F : TFlags) (P : Params) (hE : FloatOK F P) (hC : CronF
         | some b =>
           simp only at h
           cases h2 : parseDT P.base b 0 now st with
-          | none => simp [h2] at h
+          | none => simp [h2] at h; obtain ⟨_, rfl⟩ := h; exact hs
           | some y =>
             simp only [h2, periodWithEnd] at h
             -- every candidate of the dither loop is in the future
